@@ -57,6 +57,12 @@ T = {
  "C22": ("exhaustive white-box evaluation of every order-hint distance helper + long-stream differential decode and history check", "3/C22",
          "All five relative-distance helpers of the tree are called on every (bits, a, b) and compared with the signed modular distance (a source scan makes the run inconclusive if a new helper appears); streams of 300 (quick) and 2200/4300 (thorough) pictures are judged with the C01 and C03 oracles.",
          "Helper enumeration is exhaustive; stream lengths are sampled."),
+ "C23": ("offline checker (exact replica of the SRM queues) over hook traces of a stress harness driving the real SRM, an independent client-side history, real-encode traces, TSan", "3/C23",
+         "srmstress links the real EbSystemResourceManager.c/EbThreads.c and runs thousands of short histories (1..6 objects, 1..4 producers and consumers, blocking/non-blocking gets, extra references, random shutdown instant, schedule perturbation); every posted object carries a unique ticket; the trace checker (lock-order events from hook H3) and the client-side history are judged independently: exclusive hand-out, conservation, FIFO/exactly-once, release at the last reference, no lost wake-up, shutdown returns every blocked consumer. The same checker runs over the ~25 SRM instances of real encodes.",
+         "'Any interleaving' is sampled (about 1950 distinct hand-off orders per quick run). The TLA+ model named in the anchors is another technique and is not built."),
+ "C24": ("exhaustive-by-geometry walks of the real segment init/assign code with worker threads + validation of the SB-set transcription against hook-H4 traces of real encodes", "3/C24",
+         "segwalk calls the real enc_dec_segments_init and assign_enc_dec_segments with T workers for every picture size in superblocks (1..65 x 1..34 for 64x64 SBs, 128x128 too) and every grid the encoder derives (thorough: all grids up to the maxima): each segment once, dependency order (left, upper, upper-right), completion, disjoint cover; the SB-set transcription is validated against H4 traces of real encodes (64..1920 wide, lp 1..16, tiles).",
+         "Geometry is enumerated; worker interleavings are sampled (walks also run on the TSan build)."),
  "C25": ("white-box round trip of the real entropy writer and the real reader; exhaustive for short sequences", "3/C25",
          "The real svt_od_ec_enc/aom_writer and the decoder's reader are linked into one harness: every generated sequence must decode to itself with identical CDF evolution, tell monotone and never under-reporting; exhaustive over short sequences of extreme valid CDFs, random long sequences, carry chains forced.", "Valid CDFs only (as the AV1 spec defines)."),
  "C26": ("reported SSE vs sum of squared differences against libaom's decoded picture", "3/C26",
